@@ -149,7 +149,8 @@ import requests
 from requests.packages import urllib3
 
 from . import _cim_xml
-from .config import DEFAULT_ITER_MAXOBJECTCOUNT, AUTO_GENERATE_SFCB_UEP_HEADER
+from .config import DEFAULT_ITER_MAXOBJECTCOUNT, AUTO_GENERATE_SFCB_UEP_HEADER, \
+    SEND_VALUE_NULL
 from ._cim_constants import DEFAULT_NAMESPACE, CIM_ERR_NOT_SUPPORTED, \
     CIM_ERR_FAILED, DEFAULT_TIMEOUT
 from ._cim_types import CIMType, CIMDateTime, atomic_to_cim_xml
@@ -2168,7 +2169,13 @@ class WBEMConnection:  # pylint: disable=too-many-instance-attributes
             if isinstance(obj, list):
                 if obj and isinstance(obj[0], (CIMClassName, CIMInstanceName)):
                     return _cim_xml.VALUE_REFARRAY([paramvalue(x) for x in obj])
-                return _cim_xml.VALUE_ARRAY([paramvalue(x) for x in obj])
+                # NULL array entries are represented the same way as in
+                # pywbem.tocimxml()
+                return _cim_xml.VALUE_ARRAY(
+                    [paramvalue(x) if x is not None else
+                     (_cim_xml.VALUE_NULL() if SEND_VALUE_NULL
+                      else _cim_xml.VALUE(None))
+                     for x in obj])
             # The type has been checked in infer_type(), so we can assert
             assert obj is None
 
